@@ -9,6 +9,19 @@ FIELD = {"length": "length", "spec": "spec", "version": "version", "notify": "no
          "body_format": "bodyFormat", "ec": "ec"}
 
 
+def sum_form_strict(expr):
+    """Form of a sum of declared lengths.  Anything that can wrap silently or mixes forms is read as `unchecked`
+    (the pessimistic form: it panics with overflow checks and wraps without)."""
+    e = " ".join(expr.split())
+    has_plus = re.search(r"[\w\)]\s\+\s[\w\(]", e) is not None
+    if "wrapping_add" in e or "overflowing_add" in e or "unchecked_add" in e: return "unchecked"
+    if "checked_add" in e and not has_plus and "saturating_add" not in e: return "checked"
+    if "saturating_add" in e and not has_plus and "checked_add" not in e: return "saturating"
+    if has_plus and "checked_add" not in e and "saturating_add" not in e: return "unchecked"
+    if has_plus: return "unchecked"
+    raise ExtractError(f"unrecognised sum form: {e}")
+
+
 def extract():
     facts, where = {}, {}
     consts = strip(read("src/constants.rs"))
@@ -35,7 +48,12 @@ def extract():
             if int(re.fullmatch(r"o \+= (\d+);", st).group(1)) != enc[-1][1]:
                 raise ExtractError(f"encode: offset step {st} after {enc[-1]}")
         elif st in ("let mut buf = [0u8; HEADER_SIZE];", "let mut o = 0;", "buf"): pass
-        else: raise ExtractError(f"encode: unrecognised statement `{st}`")
+        else:
+            # a statement that moves a header field in a form not recognised (big-endian, masked, conditional …) is the
+            # danger itself: record the field with width 0 so that the layout is not the specification's
+            mf = re.search(r"self\.(\w+)", st)
+            if mf and mf.group(1) in FIELD: enc.append((mf.group(1), 0))
+            else: raise ExtractError(f"encode: unrecognised statement `{st}`")
     # ---- decode
     dec, sumf = [], None
     body = fn_body(imp, "decode")
@@ -48,22 +66,22 @@ def extract():
         elif m1: dec.append((m1.group(1), 1))
     me = re.search(r"let expected\s*=([^;]*);", body)
     if not me: raise ExtractError("decode: `let expected = …` not found")
-    sumf = sum_form(me.group(1))
+    sumf = sum_form_strict(me.group(1))
     for lay, nm in ((enc, "encode"), (dec, "decode")):
         for f, w in lay:
             if f not in FIELD: raise ExtractError(f"{nm}: unknown field {f}")
             if f in types and int(types[f][1:]) != 8 * w: raise ExtractError(f"{nm}: field {f} is {types[f]} but {w} bytes are moved")
-    # order of checks in decode: length test, spec test, sum test
-    pos = [body.find("input.len() < HEADER_SIZE"), body.find("spec != REPE_SPEC"), body.find("let expected")]
-    if -1 in pos or pos != sorted(pos): raise ExtractError("decode: check order (len, spec, sum) not recognised")
+    # (the order and form of the checks in decode are the fact `decodeChecks`, see shapes())
     facts["encodeLayout"], facts["decodeLayout"], facts["headerSumForm"] = enc, dec, sumf
 
     msg = test_mod_cut(strip(read("src/message.rs")))
     def expected_form(impl_re):
         b = fn_body(impl_block(msg, impl_re), "from_slice")
         m = re.search(r"let expected\s*=([^;]*);", b)
-        if not m: raise ExtractError("from_slice: expected")
-        return sum_form(m.group(1))
+        # located, but the total is computed in another way (a helper, signed arithmetic …): the sum form stays the
+        # pessimistic `unchecked`, and shapes() reports the check it cannot recognise as `.unknown`
+        if not m: return "unchecked"
+        return sum_form_strict(m.group(1))
     facts["sliceSumForm"] = expected_form(r"impl Message\s*\{")
     facts["viewSumForm"] = expected_form(r"impl<'a> MessageView<'a>\s*\{")
 
@@ -82,22 +100,336 @@ def extract():
                     helpers += hb; nxt.append(hb)
             frontier = nxt
         fallible = "try_reserve" in b or "try_reserve" in helpers
-        infallible_direct = re.search(r"vec!\[0u8;\s*header\.", b) is not None
-        if infallible_direct and not fallible: alloc = "infallible"
-        elif fallible and not infallible_direct: alloc = "fallible"
-        elif into and "resize(" in b and not fallible: alloc = "infallible"
+        # `vec![0; declared]`, `Vec::with_capacity(declared)`, `reserve(declared)` (infallible) anywhere in the reader
+        infallible_direct = re.search(r"vec!\[\s*0u8\s*;\s*(?:header\.|total|\w*len)|with_capacity\(\s*(?:header\.|total)|\.reserve(?:_exact)?\(", b) is not None
+        # the fallible reservation must cover every declared-length buffer: the owned readers make two
+        n_alloc = len(re.findall(r"zeroed_vec\(|reserve_declared\(|try_reserve", b))
+        if infallible_direct: alloc = "infallible"          # one infallible allocation is enough to abort: pessimistic
+        elif fallible and n_alloc >= (1 if into else 2): alloc = "fallible"
+        elif "resize(" in b or "vec!" in b: alloc = "infallible"
         else: raise ExtractError(f"{fn}: allocation form not recognised")
         tform = None
         if into:
             m = re.search(r"let total\s*=([^;]*);", b)
-            if not m: raise ExtractError(f"{fn}: total")
-            tform = sum_form(m.group(1))
+            tform = sum_form_strict(m.group(1)) if m else "unchecked"   # shapes() flags the unrecognised statement
         return alloc, tform
     facts["readAlloc"], _ = reader("src/io.rs", "read_message", False)
     facts["readIntoAlloc"], facts["readIntoSumForm"] = reader("src/io.rs", "read_message_into", True)
     facts["asyncReadAlloc"], _ = reader("src/async_io.rs", "read_message_async", False)
     facts["asyncReadIntoAlloc"], facts["asyncReadIntoSumForm"] = reader("src/async_io.rs", "read_message_into_async", True)
+    shapes(facts)
     return facts
+
+
+# ------------------------------------------------------------------------------------------------
+# Shapes of the parsers, emission routes and entry points (coverage-audit pass).
+#
+# Rule: a function that cannot be *located* (renamed, moved, file gone) makes its group fall back to the
+# default facts (harmless: the correspondence still ties it).  A function that is located but whose
+# statements at a place the property depends on (a check, a guard, a length patch, a write) are not of a
+# recognised form yields the PESSIMISTIC fact (`.unknown` / `false`): the theorem that names it breaks and
+# the deeper search runs.  Whitespace, comments, `x < y` vs `y > x`, operand order of `!=`, and the names of
+# sinks / locals that the patterns bind with `\w+` do not matter.
+# ------------------------------------------------------------------------------------------------
+SHAPE_DEFAULTS = {
+    "decodeChecks": ["shortInput", "magic", "lengthSum"], "decodeReturnsParsed": True,
+    "sliceChecks": ["shortInput", "bufferHolds"], "viewChecks": ["shortInput", "bufferHolds"],
+    "sliceExactChecks": ["exactLength"], "viewExactChecks": ["exactLength"],
+    "sliceBoundsExact": True, "viewBoundsExact": True, "messageNewShape": True,
+    "toVecParts": ["header", "query true", "body true"], "writeToParts": ["header", "query true", "body true"],
+    "writeMessageParts": ["header", "query true", "body true"], "writeMessageAsyncParts": ["header", "query true", "body true"],
+    "freshBufferParts": ["header", "query true", "body true"], "viewResponseParts": ["header", "query true", "body true"],
+    "streamingParts": ["header", "query true"],
+    "inPlaceShape": True, "streamingPatches": True, "viewResponsePatches": True, "buildShape": True,
+    "stampShape": True, "echoShape": True, "errorLikeShape": True, "errorUnstampedShape": True,
+    "serverEchoCall": True, "asyncServerEchoCalls": True,
+    "wsServerParser": "exact", "wsClientParser": "exact",
+    "readShape": True, "asyncReadShape": True, "readIntoShape": True, "asyncReadIntoShape": True, "readExactShape": True,
+}
+
+
+def parse_if(st):
+    """`if COND { THEN } [else { ELSE }]` -> (cond, then_body, else_body|None); None if not of that form."""
+    m = re.match(r"if\s+(.*?)\s*\{", st)
+    if not m: return None
+    i = st.find("{", m.start())
+    # the condition may itself contain no braces in the forms we care about
+    j = match_brace(st, i)
+    cond, then = " ".join(st[2:i].split()), st[i + 1:j - 1]
+    rest = st[j:].strip()
+    if not rest: return cond, then, None
+    m2 = re.match(r"else\s*\{", rest)
+    if not m2: return None
+    k = rest.find("{")
+    l = match_brace(rest, k)
+    if rest[l:].strip(): return None
+    return cond, then, rest[k + 1:l - 1]
+
+
+def cmp_norm(cond):
+    """`a < b` / `b > a` -> ('<', a, b); `a != b` -> ('!=', sorted operands); `a >= b` / `b <= a` -> ('>=', a, b)."""
+    c = " ".join(cond.split())
+    for op in ("!=", "<=", ">=", "<", ">"):
+        parts = c.split(" " + op + " ")
+        if len(parts) == 2:
+            a, b = parts[0].strip(), parts[1].strip()
+            if op == ">": return ("<", b, a)
+            if op == "<=": return (">=", b, a)
+            if op == "!=": return ("!=",) + tuple(sorted((a, b)))
+            return (op, a, b)
+    return (c,)
+
+
+def returns_err(block, variant):
+    return re.fullmatch(r"return Err\(RepeError::" + variant + r"\b.*\);?", " ".join(block.split())) is not None
+
+
+def group(facts, keys, fn):
+    """Run one group of shape facts; an ExtractError (function not locatable) falls back to the defaults of the group."""
+    try:
+        facts.update(fn())
+    except ExtractError as ex:
+        for k in keys: facts[k] = SHAPE_DEFAULTS[k]
+        facts.setdefault("_shape_fallbacks", []).append(f"{','.join(keys)}: {ex}")
+
+
+WRITE = r"(?:\w+)\.(?:write_all|extend_from_slice)\(\s*"
+TAIL = r"\s*\)(?:\.await)?\??;?"
+
+
+def classify_write(st):
+    t = " ".join(st.split())
+    if re.fullmatch(WRITE + r"&(?:\w+\.)*header(?:_bytes)?(?:\.encode\(\))?" + TAIL, t): return "header"
+    if re.fullmatch(WRITE + r"&?(?:\w+\.)*query" + TAIL, t): return "query false"
+    if re.fullmatch(WRITE + r"&?(?:\w+\.)*body" + TAIL, t): return "body false"
+    if re.fullmatch(r"\w+\.append\(&mut body\);?", t): return "body false"
+    return None
+
+
+def parts_of(stmts, neutral):
+    out = []
+    for st in stmts:
+        t = " ".join(st.split())
+        if any(re.fullmatch(n, t) for n in neutral): continue
+        c = classify_write(t)
+        if c: out.append(c); continue
+        pi = parse_if(t)
+        if pi and pi[2] is None:
+            inner = statements2(pi[1])
+            ci = classify_write(inner[0]) if len(inner) == 1 else None
+            which = ci.split()[0] if ci else None
+            if which == "query" and re.fullmatch(r"!(?:\w+\.)*query\.is_empty\(\)", pi[0]): out.append("query true"); continue
+            if which == "body" and (re.fullmatch(r"!(?:\w+\.)*body\.is_empty\(\)", pi[0]) or pi[0] in ("body_len > 0", "body_len != 0")): out.append("body true"); continue
+        out.append("unknown")
+    return out
+
+
+def shapes(facts):
+    hdr = test_mod_remove(strip(read("src/header.rs")))
+    msg = test_mod_remove(strip(read("src/message.rs")))
+    io_src = test_mod_remove(strip(read("src/io.rs")))
+    aio = test_mod_remove(strip(read("src/async_io.rs")))
+    eq = lambda a, b: " ".join(a.split()) == " ".join(b.split())
+
+    # ---- Header::decode: the checks, in order, and the returned struct
+    def g_decode():
+        body = fn_body(impl_block(hdr, r"impl Header\s*\{"), "decode")
+        checks, returns_parsed = [], False
+        names = "length, spec, version, notify, reserved, id, query_length, body_length, query_format, body_format, ec"
+        for st in statements2(body):
+            if re.fullmatch(r"let mut o = 0;|o \+= \d+;|let expected\s*=.*;", st): continue
+            if re.fullmatch(r"let \w+ = u\d+::from_le_bytes\(input\[o\.\.o \+ \d+\]\.try_into\(\)\.unwrap\(\)\);|let \w+ = input\[o\];", st): continue
+            pi = parse_if(st)
+            if pi and pi[2] is None:
+                c = cmp_norm(pi[0])
+                if c == ("<", "input.len()", "HEADER_SIZE") and returns_err(pi[1], "InvalidHeaderLength"): checks.append("shortInput"); continue
+                if c == ("!=", "REPE_SPEC", "spec") and returns_err(pi[1], "InvalidSpec"): checks.append("magic"); continue
+                if c in (("!=", "Some(length)", "expected"), ("!=", "expected", "length")) and returns_err(pi[1], "LengthMismatch"): checks.append("lengthSum"); continue
+                checks.append("unknown"); continue
+            m = re.fullmatch(r"Ok\(Self \{ (.*?),? \}\)", st)
+            if m:
+                returns_parsed = eq(m.group(1), names)
+                continue
+            checks.append("unknown")
+        return {"decodeChecks": checks, "decodeReturnsParsed": returns_parsed}
+    group(facts, ["decodeChecks", "decodeReturnsParsed"], g_decode)
+
+    # ---- slice parsers
+    def g_slice(impl_re, self_name, bounds_expected, k_checks, k_bounds, k_exact, var):
+        def run():
+            imp = impl_block(msg, impl_re)
+            checks, rest = [], []
+            seen_decode = False
+            for st in statements2(fn_body(imp, "from_slice")):
+                if eq(st, "let header = Header::decode(&buf[..HEADER_SIZE])?;"): seen_decode = True; continue
+                if re.fullmatch(r"let expected\s*=.*;", st): continue
+                pi = parse_if(st)
+                if pi and pi[2] is None:
+                    c = cmp_norm(pi[0])
+                    if c == ("<", "buf.len()", "HEADER_SIZE") and returns_err(pi[1], "InvalidHeaderLength"): checks.append("shortInput"); continue
+                    if c == ("<", "buf.len()", "expected") and returns_err(pi[1], "BufferTooSmall"): checks.append("bufferHolds"); continue
+                    checks.append("unknown"); continue
+                rest.append(st)
+            if not seen_decode: checks.append("unknown")
+            bounds = [" ".join(x.split()) for x in rest] == bounds_expected
+            ex = []
+            for st in statements2(fn_body(imp, "from_slice_exact")):
+                if eq(st, f"let {var} = Self::from_slice(buf)?;") or eq(st, f"Ok({var})"): continue
+                if eq(st, f"let expected = HEADER_SIZE + {var}.query.len() + {var}.body.len();"): continue
+                pi = parse_if(st)
+                if pi and pi[2] is None and cmp_norm(pi[0]) == ("!=", "buf.len()", "expected") and returns_err(pi[1], "LengthMismatch"):
+                    ex.append("exactLength"); continue
+                ex.append("unknown")
+            return {k_checks: checks, k_bounds: bounds, k_exact: ex}
+        return run
+    group(facts, ["sliceChecks", "sliceBoundsExact", "sliceExactChecks"], g_slice(
+        r"impl Message\s*\{", "Message",
+        ["let mut o = HEADER_SIZE;", "let query = buf[o..o + header.query_length as usize].to_vec();", "o += header.query_length as usize;",
+         "let body = buf[o..o + header.body_length as usize].to_vec();", "Self::new(header, query, body)"],
+        "sliceChecks", "sliceBoundsExact", "sliceExactChecks", "message"))
+    group(facts, ["viewChecks", "viewBoundsExact", "viewExactChecks"], g_slice(
+        r"impl<'a> MessageView<'a>\s*\{", "MessageView",
+        ["let q_start = HEADER_SIZE;", "let q_end = q_start + header.query_length as usize;", "let b_end = q_end + header.body_length as usize;",
+         "Ok(Self { header, query: &buf[q_start..q_end], body: &buf[q_end..b_end], })"],
+        "viewChecks", "viewBoundsExact", "viewExactChecks", "view"))
+
+    def g_new():
+        st = statements2(fn_body(impl_block(msg, r"impl Message\s*\{"), "new"))
+        ok = len(st) == 2 and eq(st[1], "Ok(Self { header, query, body, })")
+        pi = parse_if(st[0]) if st else None
+        ok = ok and pi is not None and pi[2] is None and returns_err(pi[1], "LengthMismatch") and \
+            eq(pi[0], "header.query_length != query.len() as u64 || header.body_length != body.len() as u64")
+        return {"messageNewShape": bool(ok)}
+    group(facts, ["messageNewShape"], g_new)
+
+    # ---- emission routes as write sequences
+    M = lambda: impl_block(msg, r"impl Message\s*\{")
+    NEUTRAL = [r"let mut out = Vec::with_capacity\(.*\);", r"let header_bytes = \w+\.header\.encode\(\);", r"Ok\(\(\)\)", r"out"]
+    group(facts, ["toVecParts"], lambda: {"toVecParts": parts_of(statements2(fn_body(M(), "to_vec")), NEUTRAL)})
+    group(facts, ["writeToParts"], lambda: {"writeToParts": parts_of(statements2(fn_body(M(), "write_to")), NEUTRAL)})
+    group(facts, ["writeMessageParts"], lambda: {"writeMessageParts": parts_of(statements2(fn_body(io_src, "write_message")), NEUTRAL)})
+    group(facts, ["writeMessageAsyncParts"], lambda: {"writeMessageAsyncParts": parts_of(statements2(fn_body(aio, "write_message_async")), NEUTRAL)})
+
+    def g_iwb():
+        st = statements2(fn_body(M(), "into_wire_bytes"))
+        head = ["let Self { header, query, mut body, } = self;", "let prefix_len = HEADER_SIZE + query.len();", "let body_len = body.len();",
+                "let total = prefix_len + body_len;"]
+        pi = parse_if(st[-1]) if st else None
+        if pi is None or pi[2] is None:
+            return {"inPlaceShape": False, "freshBufferParts": ["unknown"]}
+        inplace = [" ".join(x.split()) for x in statements2(pi[1])]
+        want = ["body.resize(total, 0);", "if body_len > 0 { body.copy_within(0..body_len, prefix_len); }",
+                "body[..HEADER_SIZE].copy_from_slice(&header.encode());",
+                "if !query.is_empty() { body[HEADER_SIZE..prefix_len].copy_from_slice(&query); }", "body"]
+        ok = [" ".join(x.split()) for x in st[:-1]] == head and cmp_norm(pi[0]) in ((">=", "body.capacity()", "total"), ("<", "total", "body.capacity()")) and inplace == want
+        return {"inPlaceShape": bool(ok), "freshBufferParts": parts_of(statements2(pi[2]), NEUTRAL)}
+    group(facts, ["inPlaceShape", "freshBufferParts"], g_iwb)
+
+    def g_streaming():
+        st = [" ".join(x.split()) for x in statements2(fn_body(io_src, "write_message_streaming"))]
+        patches = st[:3] == ["header.query_length = query.len() as u64;", "header.body_length = body_len;",
+                             "header.length = (HEADER_SIZE as u64) + header.query_length + body_len;"] or \
+                  st[:3] == ["header.query_length = query.len() as u64;", "header.body_length = body_len;",
+                             "header.length = HEADER_SIZE as u64 + header.query_length + body_len;"]
+        rest = st[3:] if patches else st
+        neutral = NEUTRAL + [r"body_writer\(w\)\.map_err\(Into::into\)\?;"]
+        return {"streamingPatches": bool(patches), "streamingParts": parts_of(rest, neutral)}
+    group(facts, ["streamingPatches", "streamingParts"], g_streaming)
+
+    def g_view_response():
+        asrv = test_mod_remove(strip(read("src/async_server.rs")))
+        st = [" ".join(x.split()) for x in statements2(fn_body(asrv, "write_view_response"))]
+        patches = st[:3] == ["let mut header = resp.header;", "header.query_length = query.len() as u64;",
+                             "header.length = HEADER_SIZE as u64 + header.query_length + header.body_length;"]
+        rest = st[3:] if patches else st
+        hc = fn_body(asrv, "handle_connection")
+        echo_def = re.search(r"let echo = crate::message::response_echo_query\(&resp, view\.query\);", " ".join(hc.split())) is not None
+        calls = re.findall(r"write_view_response\(&mut writer, &resp, (\w+(?:\.\w+)*)\)", " ".join(hc.split()))
+        return {"viewResponsePatches": bool(patches), "viewResponseParts": parts_of(rest, NEUTRAL),
+                "asyncServerEchoCalls": bool(echo_def and calls and all(c == "echo" for c in calls))}
+    group(facts, ["viewResponsePatches", "viewResponseParts", "asyncServerEchoCalls"], g_view_response)
+
+    def g_server():
+        srv = strip(read("src/server.rs"))
+        hc = " ".join(fn_body(srv, "handle_connection").split())
+        ok = "let echo = crate::message::response_echo_query(&resp, view.query);" in hc and \
+            re.search(r"write_message_streaming\( &mut writer, resp\.header, echo, resp\.body\.len\(\) as u64, \|w\| w\.write_all\(&resp\.body\), \)\?;", hc) is not None
+        return {"serverEchoCall": bool(ok)}
+    group(facts, ["serverEchoCall"], g_server)
+
+    def g_build():
+        st = [" ".join(x.split()) for x in statements2(fn_body(impl_block(msg, r"impl MessageBuilder\s*\{"), "build"))]
+        want = ["let mut header = Header::new();", "header.id = self.id;", "header.query_length = self.query.len() as u64;",
+                "header.body_length = self.body.len() as u64;", "header.length = HEADER_SIZE as u64 + header.query_length + header.body_length;",
+                "header.query_format = if self.query_format == 0 { QueryFormat::RawBinary as u16 } else { self.query_format };",
+                "header.body_format = if self.body_format == 0 { BodyFormat::RawBinary as u16 } else { self.body_format };",
+                "header.notify = if self.notify { 1 } else { 0 };", "header.ec = self.ec;", "Message { header, query: self.query, body: self.body, }"]
+        # the order of independent assignments does not matter
+        new_st = " ".join(fn_body(impl_block(hdr, r"impl Header\s*\{"), "new").split())
+        new_ok = new_st == "Self { spec: REPE_SPEC, version: REPE_VERSION, ..Default::default() }"
+        return {"buildShape": bool(st[:1] == want[:1] and st[-1:] == want[-1:] and sorted(st[1:-1]) == sorted(want[1:-1])
+                                   and st.index(want[4]) > max(st.index(want[2]), st.index(want[3])) and new_ok)}
+    group(facts, ["buildShape"], g_build)
+
+    def g_stamp():
+        st = [" ".join(x.split()) for x in statements2(fn_body(msg, "stamp_response_query"))]
+        want = ["if request_query.is_empty() || !response.query.is_empty() { return; }", "response.query = request_query.into_owned();",
+                "response.header.query_length = response.query.len() as u64;",
+                "response.header.length = HEADER_SIZE as u64 + response.header.query_length + response.header.body_length;"]
+        e = " ".join(fn_body(msg, "response_echo_query").split())
+        like = [" ".join(x.split()) for x in statements2(fn_body(msg, "create_error_response_like"))]
+        like_want = ["let mut err = create_error_message(code, msg.as_ref());", "err.header.id = request.header.id;", "err.query = request.query.clone();",
+                     "err.header.query_length = err.query.len() as u64;",
+                     "err.header.length = HEADER_SIZE as u64 + err.header.query_length + err.header.body_length;", "err"]
+        un = [" ".join(x.split()) for x in statements2(fn_body(msg, "create_error_response_unstamped_view"))]
+        un_want = ["let mut err = create_error_message(code, msg.as_ref());", "err.header.id = view.header.id;", "err"]
+        return {"stampShape": st == want, "echoShape": e == "if response.query.is_empty() { request_query } else { &response.query }",
+                "errorLikeShape": like == like_want, "errorUnstampedShape": un == un_want}
+    group(facts, ["stampShape", "echoShape", "errorLikeShape", "errorUnstampedShape"], g_stamp)
+
+    # ---- which parser the one-message-per-buffer entry points use
+    def parser_kind(file):
+        def run():
+            src = " ".join(test_mod_remove(strip(read(file))).split())
+            calls = re.findall(r"\b(?:MessageView|Message)::(from_slice(?:_exact)?)\(", src)
+            if not calls: raise ExtractError(f"{file}: no slice parser call found")
+            return "exact" if all(c == "from_slice_exact" for c in calls) else "lenient"
+        return run
+    group(facts, ["wsServerParser"], lambda: {"wsServerParser": parser_kind("src/websocket_server.rs")()})
+    group(facts, ["wsClientParser"], lambda: {"wsClientParser": parser_kind("src/websocket_client.rs")()})
+
+    # ---- stream readers, statement by statement
+    def g_readers():
+        def norm(body): return [" ".join(x.split()) for x in statements2(body)]
+        rd = norm(fn_body(io_src, "read_message"))
+        rd_want = ["let mut hdr_buf = [0u8; HEADER_SIZE];", "read_exact(r, &mut hdr_buf)?;", "let header = Header::decode(&hdr_buf)?;",
+                   "let mut query = zeroed_vec(header.query_length as usize)?;", "if !query.is_empty() { read_exact(r, &mut query)?; }",
+                   "let mut body = zeroed_vec(header.body_length as usize)?;", "if !body.is_empty() { read_exact(r, &mut body)?; }",
+                   "Message::new(header, query, body)"]
+        ard = norm(fn_body(aio, "read_message_async"))
+        ard_want = ["let mut hdr = [0u8; HEADER_SIZE];", "r.read_exact(&mut hdr).await?;", "let header = Header::decode(&hdr)?;",
+                    "let mut query = crate::io::zeroed_vec(header.query_length as usize)?;", "if !query.is_empty() { r.read_exact(&mut query).await?; }",
+                    "let mut body = crate::io::zeroed_vec(header.body_length as usize)?;", "if !body.is_empty() { r.read_exact(&mut body).await?; }",
+                    "Message::new(header, query, body)"]
+        ri = norm(fn_body(io_src, "read_message_into"))
+        ri_want = ["buf.clear();", "buf.resize(HEADER_SIZE, 0);", "read_exact(r, &mut buf[..HEADER_SIZE])?;", "let header = Header::decode(&buf[..HEADER_SIZE])?;",
+                   "let total = HEADER_SIZE + header.query_length as usize + header.body_length as usize;", "reserve_declared(buf, total - HEADER_SIZE)?;",
+                   "buf.resize(total, 0);", "read_exact(r, &mut buf[HEADER_SIZE..total])?;", "Ok(())"]
+        ari = norm(fn_body(aio, "read_message_into_async"))
+        ari_want = ["buf.clear();", "buf.resize(HEADER_SIZE, 0);", "r.read_exact(&mut buf[..HEADER_SIZE]).await?;", "let header = Header::decode(&buf[..HEADER_SIZE])?;",
+                    "let total = HEADER_SIZE + header.query_length as usize + header.body_length as usize;", "crate::io::reserve_declared(buf, total - HEADER_SIZE)?;",
+                    "buf.resize(total, 0);", "r.read_exact(&mut buf[HEADER_SIZE..total]).await?;", "Ok(())"]
+        def loosen(xs):   # the sum/alloc forms are facts of their own: do not let a change there flip the shape fact too
+            return [re.sub(r"let total = .*;", "let total = …;", x) for x in xs]
+        def rename_hdr(xs):   # the name of the local header buffer does not matter
+            m = re.fullmatch(r"let mut (\w+) = \[0u8; HEADER_SIZE\];", xs[0]) if xs else None
+            return [re.sub(r"\b" + m.group(1) + r"\b", "HDR", x) for x in xs] if m else xs
+        rx = norm(fn_body(io_src, "read_exact"))
+        rx_ok = len(rx) == 2 and rx[1] == "Ok(())" and re.fullmatch(
+            r"while !buf\.is_empty\(\) \{ let n = r\.read\(buf\)\?; if n == 0 \{ return Err\(RepeError::Io\(std::io::Error::from\( std::io::ErrorKind::UnexpectedEof, \)\)\); \} let tmp = buf; buf = &mut tmp\[n\.\.\]; \}", rx[0]) is not None
+        return {"readShape": rename_hdr(rd) == rename_hdr(rd_want), "asyncReadShape": rename_hdr(ard) == rename_hdr(ard_want), "readIntoShape": loosen(ri) == loosen(ri_want),
+                "asyncReadIntoShape": loosen(ari) == loosen(ari_want), "readExactShape": bool(rx_ok)}
+    group(facts, ["readShape", "asyncReadShape", "readIntoShape", "asyncReadIntoShape", "readExactShape"], g_readers)
 
 
 def render(f):
@@ -114,6 +446,17 @@ def render(f):
         L.append(f"def {k} : SumForm := .{f[k]}")
     for k in ("readAlloc", "readIntoAlloc", "asyncReadAlloc", "asyncReadIntoAlloc"):
         L.append(f"def {k} : AllocForm := .{f[k]}")
+    lst = lambda xs: "[" + ", ".join("." + x for x in xs) + "]"
+    for k in ("decodeChecks", "sliceChecks", "viewChecks", "sliceExactChecks", "viewExactChecks"):
+        L.append(f"def {k} : List Check := {lst(f[k])}")
+    for k in ("toVecParts", "writeToParts", "writeMessageParts", "writeMessageAsyncParts", "freshBufferParts", "viewResponseParts", "streamingParts"):
+        L.append(f"def {k} : List Part := {lst(f[k])}")
+    for k in ("decodeReturnsParsed", "sliceBoundsExact", "viewBoundsExact", "messageNewShape", "inPlaceShape", "streamingPatches", "viewResponsePatches",
+              "buildShape", "stampShape", "echoShape", "errorLikeShape", "errorUnstampedShape", "serverEchoCall", "asyncServerEchoCalls",
+              "readShape", "asyncReadShape", "readIntoShape", "asyncReadIntoShape", "readExactShape"):
+        L.append(f"def {k} : Bool := {'true' if f[k] else 'false'}")
+    for k in ("wsServerParser", "wsClientParser"):
+        L.append(f"def {k} : ParserKind := .{f[k]}")
     L.append("end Repe.Gen")
     return "\n".join(L) + "\n"
 
